@@ -157,3 +157,24 @@ Example fast_path_example :
      [EBegin; EContext CBefore 2 (Some 2) [120; 10]%N; EMatched 4 (Some 3) [98; 10]%N;
       EContext CAfter 6 (Some 4) [121; 10]%N; EFinish 10 None].
 Proof. vm_compute. split; reflexivity. Qed.
+
+(* 5. stop-on-nonmatch: the reference with the option on delivers exactly what the reference with
+      the option off delivers on the lines up to and including the first non-result line that
+      follows a result (GrepStop.trunc); the byte count reported at finish is the end of that
+      line.  Hence theorems 3a–3e describe the stopped search on the truncated input. *)
+From RG Require Import Proofs.GrepStop.
+Theorem stop_on_nonmatch_is_truncation :
+  forall cfg is_match, c_stop_on_nonmatch cfg = true ->
+  forall ls : list bytes,
+    let g := g_run cfg is_match ls in
+    let g' := g_run (nostop cfg) is_match (trunc cfg is_match false ls) in
+    g_out g = g_out g' /\ g_off g = g_off g' /\ exists rest, ls = trunc cfg is_match false ls ++ rest.
+Proof. exact stop_on_nonmatch_is_truncation_proof. Qed.
+Print Assumptions stop_on_nonmatch_is_truncation.
+
+Theorem truncation_only_after_result_then_nonresult :
+  forall cfg is_match ls m rest, ls = trunc cfg is_match m ls ++ rest -> rest <> [] ->
+    exists pre l, trunc cfg is_match m ls = pre ++ [l] /\ GrepStop.sc cfg is_match l = false /\
+                  (m = true \/ Exists (fun x => GrepStop.sc cfg is_match x = true) pre).
+Proof. exact trunc_cut. Qed.
+Print Assumptions truncation_only_after_result_then_nonresult.
